@@ -1,7 +1,7 @@
 (** * GenPropsTuple: C01 / C02 / C07 / C19 stated about the tuple and [BTreeMap] impls as rustc expands them
     (GeneratedDerive.v), for every component / key / value type expression. *)
 From SSZ Require Import Base RustSem Offsets Encoder Builder Types Codec CodecUnfold BaseFacts OffsetsFacts AppendFacts MetaFacts
-     ListDecFacts Canon OrderFacts RoundTrip LeafIface LeafProof SizeFacts Strict
+     ListDecFacts NoPanic Canon OrderFacts RoundTrip LeafIface LeafProof SizeFacts Strict
      Generated GenEquiv GenEquivDec GenEquivEnc GenProps GeneratedDerive GenEquivDerive GenEquivDerive2 GenEquivTuple GenEquivMap GenPropsDerive.
 From Coq Require Import ZArith ZifyN ZifyBool ZifyNat Lia.
 Open Scope N_scope.
@@ -110,6 +110,30 @@ Proof.
     unfold two32 in Hlen. pose proof usize_max_val. lia.
 Qed.
 
+(** C05: the expanded tuple, set and map decoders never panic on a physical input *)
+Theorem Src_C05_collections_no_panic bs :
+  phys bs ->
+  (forall tA tB, GenD.tuple2_from_ssz_bytes (d_is_fixed tA) (d_fixed_len tA) (dec tA) (d_is_fixed tB) (d_fixed_len tB) (dec tB) bs <> Panic) /\
+  (forall tA tB tC, GenD.tuple3_from_ssz_bytes (d_is_fixed tA) (d_fixed_len tA) (dec tA) (d_is_fixed tB) (d_fixed_len tB) (dec tB)
+                      (d_is_fixed tC) (d_fixed_len tC) (dec tC) bs <> Panic) /\
+  (forall t, Gen.btreeset_from_ssz_bytes (d_is_fixed t) (d_fixed_len t) (dec t) val_cmp bs <> Panic) /\
+  (forall t n, Gen.smallvec_from_ssz_bytes n (d_is_fixed t) (d_fixed_len t) (dec t) bs <> Panic) /\
+  (forall k v, d_fixed_len k + d_fixed_len v <= usize_max ->
+     GenD.btreemap_from_ssz_bytes (d_is_fixed k) (d_fixed_len k) (dec k) val_cmp (d_is_fixed v) (d_fixed_len v) (dec v) bs <> Panic).
+Proof.
+  intro Hp. destruct Hp as (Hw & Hl).
+  assert (NP : forall t, dec t bs <> Panic) by (intro t; apply (NoPanic.nopanic_facts leaf_facts t bs); split; assumption).
+  assert (T : forall {A B} (f : A -> B) (g : outcome A) (m : outcome B), omap f g = m -> m <> Panic -> g <> Panic).
+  { intros A B f g m E Hm Hg. apply Hm. rewrite <- E, Hg. reflexivity. }
+  repeat split.
+  - intros tA tB. exact (T _ _ _ _ _ (gen_tuple2_from_ssz_bytes tA tB bs) (NP (TContainer false [tA; tB]))).
+  - intros tA tB tC. exact (T _ _ _ _ _ (gen_tuple3_from_ssz_bytes tA tB tC bs) (NP (TContainer false [tA; tB; tC]))).
+  - intro t. exact (T _ _ _ _ _ (gen_btreeset_is_dec_TSet t bs Hl) (NP (TSet t))).
+  - intros t n. exact (T _ _ _ _ _ (gen_smallvec_is_dec_TList n t bs Hl) (NP (TList t))).
+  - intros k v HF. exact (T _ _ _ _ _ (gen_btreemap_is_dec_TMap k v bs Hl HF) (NP (TMap k v))).
+Qed.
+
 Print Assumptions Src_C01_tuple2.
 Print Assumptions Src_C02_tuple2.
 Print Assumptions Src_C19_map_round_trip.
+Print Assumptions Src_C05_collections_no_panic.
